@@ -35,6 +35,10 @@ def run(ck):
     rule_M(ck, lib)
     rule_X(ck, lib)
     rule_W(ck, lib)
+    # the node a relative header is looked up in: root at the start of every message (else a header with a missing
+    # level would be accepted relative to a stale path)
+    import c02
+    c02.rule_R(ck, lib, pfx="C01")
     rule_T(ck)
 
 
